@@ -196,6 +196,17 @@ theorem headTid_mem {l : List Txn} (h : 0 < headTid l) : ∃ T ∈ l, T.tid = he
   | nil => simp [headTid] at h
   | cons t r => exact ⟨t, by simp, rfl⟩
 
+/-! ### dropping the commit lock -/
+
+theorem dropInfl_log (s : Sys) : (dropInfl s).log = s.log := by unfold dropInfl; split <;> rfl
+theorem dropInfl_insts (s : Sys) : (dropInfl s).insts = s.insts := by unfold dropInfl; split <;> rfl
+theorem dropInfl_hists (s : Sys) : (dropInfl s).hists = s.hists := by unfold dropInfl; split <;> rfl
+theorem dropInfl_nh (s : Sys) : (dropInfl s).nh = s.nh := by unfold dropInfl; split <;> rfl
+theorem dropInfl_infl (s : Sys) : (dropInfl s).infl = none := by
+  unfold dropInfl; split
+  · rfl
+  · next h => exact h
+
 /-! ### the finish section -/
 
 theorem finishing_some {s : Sys} {f : Infl} :
